@@ -10,6 +10,57 @@ PROPERTIES = {
         "excluded": [],
         "trusted": ["AEON Percolation.percolate_subspace computes Perc (assumed; exercised by the bounded conformance sweep)"],
     },
+    "C02": {
+        "decided_by": "SuccessionDiagram invariant (I-ids, I-key, I-space, I-root, I-stub, I-norm, I-edge.rank, I-depth) required and "
+                      "ensured by _ensure_edge, _ensure_node, _expand_one_node, node_successors, expand_bfs; I-norm pins the exact "
+                      "sequence of (stable motif, percolated child) pairs of every normally expanded node to the key-sorted "
+                      "enumeration of its maximal trap spaces (ghost successor signature); expand_bfs returns True only when every "
+                      "node reachable from the start node is expanded",
+        "excluded": [],
+        "trusted": ["trappist call-site contract (solver enumerates TrapSol; L4/L5 glue to MaxTrapSet)", "percolate_space = Perc", "space_unique_key = SKey (L10 injective)"],
+    },
+    "C04": {
+        "decided_by": "data-structure invariant after every operation: _expand_one_node / node_successors / expand_bfs require and ensure the "
+                      "full invariant and the monotone-extension relation ext(new, old) (an expanded node never changes: same successor "
+                      "signature, edges, motifs, caches); transitivity of ext is a schema lemma proved by SMT on every run, so the claim "
+                      "holds for every interleaving by induction on the call sequence",
+        "excluded": ["confluence with a fresh full expansion is the corollary I-norm + expand_bfs completeness (lemma c04_confluence, not mechanised)"],
+        "trusted": ["trappist call-site contract", "percolate_space = Perc", "space_unique_key = SKey"],
+    },
+    "C10": {
+        "decided_by": "restrict_petrinet_to_subspace: full characterisation of the node and edge sets of the result for an arbitrary "
+                      "(uninterpreted) net and subspace, all five loops with invariants; argument untouched (functional value model)",
+        "excluded": ["network_to_petrinet / _create_transitions / percolate_network: assumed AEON BDD operations dominate; bounded stand-in only"],
+        "trusted": ["networkx DiGraph operations", "L5: the syntactic characterisation implies Encodes(restrict(p,T), N, S∪T) (cited; bounded validation)"],
+    },
+    "C14": {
+        "decided_by": "I-cache (CacheOK relative to the ghost successor signature of each node) is part of the invariant ensured by "
+                      "_ensure_node, _expand_one_node (caches_discarded + raises.nothing_cached), node_successors, reclaim_node_data; "
+                      "CacheOK(none, none, none) is the only axiom that re-establishes it after a successor is added",
+        "excluded": ["skip paths, source shortcuts and sub-diagram attachment are decided by the bounded stand-in only (contracts not yet written)"],
+        "trusted": ["meaning of CacheOK (each non-None cache field is correct for the current successor signature)"],
+    },
+    "C15": {
+        "decided_by": "exceptional postconditions: _expand_one_node / node_successors raising RuntimeError leave the full invariant, the node "
+                      "unexpanded without successors and with no cached attractor data, and every other node untouched; expand_bfs: "
+                      "True => every reachable node expanded, False => a limit was given and (size limit) an unexpanded node exists",
+        "excluded": ["identity of greedy partial diagrams across interrupted/uninterrupted runs (two-run property)"],
+        "trusted": ["trappist may raise RuntimeError without modifying anything (clingo failure model)", "max_motifs_per_node >= 0"],
+    },
+    "C16": {
+        "decided_by": "reclaim_node_data: frame postcondition (only percolated network / Petri net / NFVS dropped, candidates dropped only "
+                      "where seeds are known; spaces, edges, motifs, flags, seeds, sets untouched) and invariant preservation; "
+                      "restrict_petrinet_to_subspace is a function of its arguments (recomputation gives the same value)",
+        "excluded": ["pickle round trip (__getstate__/__setstate__): dictionary unpacking and AEON text round trip are outside the subset; bounded stand-in only"],
+        "trusted": ["pickle, AEON to_aeon/from_aeon"],
+    },
+    "C20": {
+        "decided_by": "_update_node_depth (recursive; satisfied edges stay satisfied, node depth exact, nodes not below unchanged), "
+                      "_ensure_edge (edge-consistency of depths restored after every new edge), depth() = maximum, __len__ / node_ids / "
+                      "stub_ids / expanded_ids contiguous ids, find_node exact match via key injectivity (L10), node_is_minimal",
+        "excluded": ["summary()/build() text output and is_subgraph/is_isomorphic: bounded stand-in only (string building outside the subset)"],
+        "trusted": ["space_unique_key = SKey (L10)", "networkx"],
+    },
 }
 
 # Properties not (yet) claimed, with the reason recorded in MANIFEST.json.
